@@ -4,7 +4,14 @@ Same machinery as C02 (checks/c02.py, class Arbitrary) with the stream UNCONSTRA
 an arbitrary byte, the total length T is symbolic in 0..2^31 (the producer dying at any offset, empty input included).
 """
 from checks import c02
-from checks.c02 import concrete, judge, make  # noqa: F401  (same harness classes / concrete side)
+from checks.c02 import concrete, judge  # noqa: F401  (same harness classes / concrete side)
+
+
+def make(job):
+    if job["h"].startswith("induct"):
+        from checks import induct
+        return induct.make(job)
+    return c02.make(job)
 
 META = {
     "level": "model_checking",
@@ -14,7 +21,11 @@ META = {
              "length field at o_i+4, consecutive, and entirely inside the input; when the generator stops the remainder is shorter than a "
              "header or than the packet its header declares; no exception escapes. Non-termination shows up as a yield that is not a "
              "complete packet (the loop can only continue by yielding) or as the per-path decision cap, and is confirmed by a replay "
-             "with a timeout.",
+             "with a timeout.  INDUCTIVE STEP (checks/induct.py, any number of packets): the body of the framing loop, lifted from the function's AST, is run "
+             "from an ARBITRARY loop-head state satisfying the representation invariant; z3 proves that a complete next record is yielded exactly and "
+             "re-establishes the invariant, and that when what is left is empty, shorter than prefix + header, or a header whose declared body is cut "
+             "short, the generator stops without yielding and without an error (bytes, file, socket closed by its peer).  Every finite byte string is "
+             "some complete records followed by such a remainder, so framing terminates on it after yielding exactly those records.",
     "trusted": "as C02; in addition the closed-socket contract recv() -> b'' after T bytes",
     "bounds": {"quick": {"yields explored": 3, "R (source reads per packet)": 4, "T": "0..2^31", "prefix": "0 (and 3 in one job)"},
                "thorough": {"yields explored": "4 with R = 4; 2 with R = 7", "R (source reads per packet)": "4 / 7", "T": "0..2^31", "prefix": "0 and 3"}},
@@ -39,6 +50,8 @@ def jobs(tier):
                             "must_reach": ["stop/0", "stop/1"], "split": 4, "chunk": 20, "max_paths": 400000})
     out.append({"name": "arb-file-sym-prefix3", "h": "arbitrary", "params": {"kind": "file", "NP": 1 if q else 2, "R": R, "rmode": "sym", "k": 3},
                 "must_reach": ["stop/0", "stop/1"], "split": 4, "chunk": 20})
+    from checks import induct
+    out += induct.tail_jobs(tier)
     out.append({"name": "arb-file-viadef", "h": "arbitrary", "params": {"kind": "file", "NP": 1 if q else 2, "R": R, "rmode": "default", "via_def": True},
                 "must_reach": ["stop/0", "stop/1"], "split": 4, "chunk": 20})
     return out
